@@ -54,7 +54,9 @@ Print Assumptions C12_split_independent_any_program.
     string / the numeral of the integer of the message [abs v] that readNextMessage decodes (C12_roundtrip) *)
 Theorem C12_stream_payload : forall (B : nat) (v : rv) (p rest : bytes),
   (32 <= B)%nat -> wf v = true -> payload v = Some p ->
-  stream B None (enc v ++ rest) = ((zlen p, SNone, true), rest, p) /  fst (decode B (enc v ++ rest)) = (Ok (abs v), rest) /  (p = m_str (abs v) \/ p = decZ (m_ival (abs v))).
+  stream B None (enc v ++ rest) = ((zlen p, SNone, true), rest, p) /\
+  fst (decode B (enc v ++ rest)) = (Ok (abs v), rest) /\
+  (p = m_str (abs v) \/ p = decZ (m_ival (abs v))).
 Proof.
   intros B v p rest HB Hwf Hp. split; [now apply stream_payload_top|]. split; [now apply decode_roundtrip|].
   destruct (payload_is_read v p Hp) as [(_ & _ & H)|(_ & H)]; auto.
